@@ -52,10 +52,10 @@ func TestVerifEnumC17c(t *testing.T) {
 		ops = append(ops, cmOp{kind: 0, addr: i})
 	}
 	ops = append(ops, cmOp{kind: 1})
-	for _, d := range []time.Duration{T / 2, T - 1, T} {
+	for _, d := range []time.Duration{T / 8, T / 2, T - 1, T} {
 		ops = append(ops, cmOp{kind: 2, step: d})
 	}
-	r.Begin("clientMapInner", "explicit clock; ops SendQueue(a|b|c, now), removeExpired(now, T), clock steps {T/2, T-1ns, T}; breadth-first over operation sequences on the real object until no new canonical state (heap order of addresses + idle times capped at T) appears; invariants and reference checked after every operation")
+	r.Begin("clientMapInner", "explicit clock; ops SendQueue(a|b|c, now), removeExpired(now, T), clock steps {T/8, T/2, T-1ns, T}; breadth-first over operation sequences on the real object until no new canonical state (heap order of addresses + idle times capped at T) appears; invariants and reference checked after every operation")
 	if !r.Shard0() {
 		return
 	}
